@@ -3,6 +3,7 @@ C02 - coherent object tree and registry.  Decides ownership and pairing:
   R02.1 who may write allobjects / contents / rootobjects / subclasses / implementedby_directly / name / parent
   R02.2 unlink pairing: a function that removes an object from the registry also removes it from its container
   R02.3 subtree completeness of the re-keying routines; fresh key for a superseded object
+  R02.5 every insertion into a contents table handles the entry that is already there
   R02.4 kind by place
 Does not decide: the heap invariants after arbitrary histories (one key per object, reachability, unique page names).
 """
@@ -300,6 +301,47 @@ def run(repo: Repo, chk: Check, thorough: bool = False) -> None:
                'module; re-exporting the current package from one of its submodules makes it its own ancestor - fullName() recurses until the run aborts',
                repo.loc(hr.mod, c))
     chk.require('R02.4', 4)
+
+    # ------------------------------------------------------------------ R02.5 inserting into a namespace handles what is already there
+    # `parent.contents[name] = obj` silently replaces an existing entry; the replaced object (and its members) stay registered with a parent
+    # that no longer lists them.  Every insertion must either come with the duplicate handling or be reached only when the name is free.
+    n_ins = 0
+    for w in writers(repo, 'contents', [f'{M}.Documentable'], unknown_counts=True, skip_modules=('pydoctor.test', 'pydoctor.sphinx_ext')):
+        if w.kind != 'setitem':
+            continue
+        n_ins += 1
+        f = w.func
+        cff = CFG(f)
+        dup_calls = [c for c in calls_in(f) if call_name(c) == 'handleDuplicate']
+        st_w = cff.stmt_of(w.node) if not isinstance(w.node, ast.stmt) else w.node
+        tgt = w.node.targets[0] if isinstance(w.node, ast.Assign) else None
+        key = norm(tgt.slice) if isinstance(tgt, ast.Subscript) else '?'
+
+        def name_free(e: ast.AST, pol: bool) -> bool:
+            # does `e` evaluating to `pol` establish that nothing is bound to `key` in the target table?
+            if isinstance(e, ast.UnaryOp) and isinstance(e.op, ast.Not):
+                return name_free(e.operand, not pol)
+            if isinstance(e, ast.Compare) and len(e.ops) == 1:
+                l, o, r = e.left, e.ops[0], e.comparators[0]
+                if isinstance(o, (ast.In, ast.NotIn)) and norm(l) == key and 'contents' in norm(r):
+                    return pol == isinstance(o, ast.NotIn)
+                if isinstance(o, (ast.Is, ast.IsNot)) and norm(r) == 'None' and isinstance(l, ast.Call) and call_name(l) == 'get' and 'contents' in norm(l.func) and \
+                        l.args and norm(l.args[0]) == key:
+                    return pol == isinstance(o, ast.Is)
+            return False
+        free_edges = [(nid, id(t), k) for nid, edges in cff.succ.items() for (t, l, k) in edges if l is not None and name_free(l[0], l[1])]
+        # the duplicate handling may also follow the insertion (addObject registers, then calls handleDuplicate when the name was taken)
+        after = any(id(cff.stmt_of(c)) in cff.reachable(st_w, no_exc=True) for c in dup_calls)
+        r_ = cff.reachable(cff.ENTRY, avoid_nodes=[cff.stmt_of(c) for c in dup_calls], avoid_edges=free_edges, no_exc=True)
+        handled = after or (bool(dup_calls or free_edges) and id(st_w) not in r_)
+        free = False
+        chk.ob('R02.5', f'{f.qn} :: {norm(w.node)[:50]} handles an existing entry', handled or free,
+               'on every path the name is free or handleDuplicate runs' if handled or free else
+               f'`{norm(w.node)[:60]}` overwrites whatever is already bound to that name: the replaced object keeps its registry entry (and its members theirs) but '
+               'is no longer reachable from any root, and nothing hides or renames it', w.loc)
+    if n_ins < 2:
+        raise AnalysisError(f'R02.5: {n_ins} insertions into a contents table found (2 confirmed: System.addObject, Documentable.reparent)')
+    chk.require('R02.5', 2)
 
 
 def _values(f: Func, name: str) -> List[ast.AST]:
